@@ -23,6 +23,7 @@ Template language (a `.vt.rs` file is Rust text with directive lines starting wi
   //@subst /<regex>/ => <text> [#n|#all]   declared rewrite of the matched text on one line (logged)
   //@forname <k> <ident>       `for x in e` -> `for x in <ident>: e` for the k-th loop (insertion)
   //@noresname                 do not name the result (`-> T` stays)
+  //@attr                      following lines (verifier attributes) inserted in front of the item
   //@end
 
 Result naming (R1) `-> T` => `-> (res: T)` is done by two insertions.
@@ -518,6 +519,8 @@ def splice_fn(item, directives, log, probe=False):
                 log.append(f"SUBST {item.name}: `{m.group(0)}` => `{m.expand(d['repl'])}`")
         elif op == "noresname":
             pass
+        elif op == "attr":
+            inserts.append((0, order, d["text"] + "\n")); order += 1
         else:
             raise ValueError(op)
     # apply from the end
@@ -580,7 +583,10 @@ def build_unit(template_path, repo, verif_root, probe=False):
                 i += 1
                 cur = None
                 closed = False
-                while kind == "fn" and i < len(lines):
+                def _has_dirs(k):
+                    mm = _dir.match(lines[k]) if k < len(lines) else None
+                    return bool(mm) and mm.group(1) in ("sig", "loop", "forname", "before", "after", "subst", "noresname", "attr", "end")
+                while (kind == "fn" or _has_dirs(i) or dirs) and i < len(lines):
                     m2 = _dir.match(lines[i])
                     if m2:
                         op2, rest2 = m2.group(1), m2.group(2).strip()
@@ -605,6 +611,8 @@ def build_unit(template_path, repo, verif_root, probe=False):
                                    "n": "all" if n == "all" else int(n), "text": ""}
                         elif op2 == "noresname":
                             cur = {"op": "noresname", "text": ""}
+                        elif op2 == "attr":
+                            cur = {"op": "attr", "text": ""}
                         else:
                             raise ValueError(f"unknown directive {op2} in {path}:{i+1}")
                         dirs.append(cur)
@@ -621,6 +629,13 @@ def build_unit(template_path, repo, verif_root, probe=False):
                     d["text"] = d["text"].rstrip("\n")
                 if kind == "fn" and (dirs or it.body_open is not None):
                     txt = splice_fn(it, dirs, log, probe) if it.body_open is not None else it.text
+                elif dirs:
+                    # non-fn items accept declared substitutions only (e.g. field visibility)
+                    if any(d["op"] not in ("subst", "noresname") for d in dirs):
+                        raise ValueError(f"only //@subst allowed on {kind} {it.name}")
+                    it2 = it
+                    it2.body_open = -1
+                    txt = splice_fn(it2, dirs + [{"op": "noresname"}], log, False)
                 else:
                     txt = it.text
                 out.append(txt)
